@@ -225,6 +225,16 @@ Fixpoint run_with (stp : state -> op -> state * list res) (st : state) (ops : li
   end.
 Definition run (pyswarms : bool) := run_with (if pyswarms then step_ps else step).
 
+(* Fitness.__init__ given the paths of a resumed fit: check_log_likelihood evaluates the stored best
+   vector through __call__ INSIDE the constructor.  `late` = the two history lists are created only
+   after that evaluation: a successful evaluation that wants to record itself then raises
+   AttributeError (None); otherwise the lists are created afterwards, i.e. empty. *)
+Definition construct (late : bool) (st : state) (pbuf : nat) : option state :=
+  let st1 := fst (step st (OCall pbuf)) in
+  if late then
+    if length (hist st1) =? length (hist st) then Some {| heap := heap st; hist := [] |} else None
+  else Some st1.
+
 (* what a reader of fitness.parameters_history_list / log_likelihood_history_list sees *)
 Definition view (st : state) : list (list V * V) :=
   map (fun e => (match fst e with PRef b => buf (heap st) b | PVal v => v end, snd e)) (hist st).
@@ -351,18 +361,38 @@ Inductive case :=
        (m : model (V := float)) (s : lscript) (tab : list (list (float * float)))
        (sumtab : list (list float * float))
        (heap0 : list (list float)) (ops : list (op (V := float)))
+       (obs_out : list (list (res (V := float)))) (obs_hist : list (list float * float))
+(* the fitness is constructed with resumed paths whose best vector is buffer pbuf; obs_raised: the constructor raised *)
+| CCtor (fl : flags) (resample : float)
+       (m : model (V := float)) (s : lscript) (tab : list (list (float * float)))
+       (sumtab : list (list float * float))
+       (heap0 : list (list float)) (pbuf : nat) (ops : list (op (V := float)))
+       (obs_raised : bool)
        (obs_out : list (list (res (V := float)))) (obs_hist : list (list float * float)).
+
+Definition fresh0 (heap0 : list (list float)) : state (V := float) := {| heap := heap0; hist := [] |}.
 
 Definition model_run (c : case) :=
   match c with
   | CSeq ps fl r m s tab sumtab heap0 ops _ _ =>
       let '(st, outs) := run (numF sumtab) current_impl m (run_script s) (table_lp tab) fl r ps
                              {| heap := heap0; hist := [] |} ops in
-      (outs, view st)
+      (false, outs, view st)
+  | CCtor fl r m s tab sumtab heap0 pbuf ops _ _ _ =>
+      match construct (numF sumtab) current_impl m (run_script s) (table_lp tab) fl r impl_ctor_history_late
+                      (fresh0 heap0) pbuf with
+      | None => (true, [], [])
+      | Some st0 =>
+          let '(st, outs) := run (numF sumtab) current_impl m (run_script s) (table_lp tab) fl r false st0 ops in
+          (false, outs, view st)
+      end
   end.
 Definition check_case (c : case) : bool :=
   match c with
   | CSeq _ _ _ _ _ _ _ _ _ obs_out obs_hist =>
-      let '(outs, h) := model_run c in
+      let '(_, outs, h) := model_run c in
       list_eqb (list_eqb res_eqb) outs obs_out && hist_eqb h obs_hist
+  | CCtor _ _ _ _ _ _ _ _ _ obs_raised obs_out obs_hist =>
+      let '(raised, outs, h) := model_run c in
+      Bool.eqb raised obs_raised && list_eqb (list_eqb res_eqb) outs obs_out && hist_eqb h obs_hist
   end.
